@@ -26,12 +26,16 @@ TIERS = {
                  "determinism_every": 300, "determinism_max": 200},
 }
 
-RULE = ("one run = one swarm configuration (standard, reader kind, comment/directive options, "
+RULE = ("two thirds of the runs: one run = one swarm configuration (standard, reader kind, comment/directive options, "
         "enabled fault kinds) + one valid generated program rendered in free or fixed form + "
         "1-3 seeded faults placed in the bytes that are parsed (token/structural/line/byte "
         "damage, torn tail, or unstructured text; short reads / EIO on open 1 or 2 / "
         "non-seekable stream for file readers), or a CLI batch of 2-5 files with some damaged, "
-        "or a fault-free differential run; non-trivial = at least one fault actually changed the "
+        "or a fault-free differential run; one third of the runs (focused mode): one statement or "
+        "construct of the statement zoo in a minimal subprogram with one single-token fault "
+        "(delete / duplicate / swap / replace by punctuation or keyword), enumerated evenly "
+        "over all statements in a per-seed order (second-order faults once the single ones are "
+        "exhausted); non-trivial = at least one fault actually changed the "
         "bytes or a read; distinct = distinct event-log digest")
 ASSUMPTIONS = [
     "a FortranSyntaxError or a returned tree whose str()/repr() succeed are the only "
@@ -49,7 +53,7 @@ COMPONENTS = {
     "stub": ["file system (SimFS)", "raw byte stream (SimRaw)", "process exit (SystemExit trap)",
              "time (step clock on Base.__new__ + wall watchdog)"],
 }
-PROBES = ["decode_handler_fired", "short_read_split_multibyte", "trunc_inside_literal",
+PROBES = ["focused_single_token_fault", "decode_handler_fired", "short_read_split_multibyte", "trunc_inside_literal",
           "trunc_inside_continuation", "trunc_inside_directive", "system_exit_trapped",
           "eio_on_second_open", "eio_on_first_open", "cli_damaged_first", "cli_damaged_middle",
           "cli_damaged_last", "outcome_tree", "outcome_syntax", "faultfree_compared"]
@@ -103,9 +107,88 @@ def _damage(st, sw, text, cfg, stats_features):
     return data, muts
 
 
+# ---- focused mode: single statements, single-token faults, enumerated -----------------
+_FOCUS = None
+_FOCUS_OPS = ["delete", "duplicate", "swap_next", "punct::", "punct:,", "punct:(", "punct:)",
+              "punct:=", "punct:'", "keyword:end"]
+
+
+def _focus_sources():
+    """(std, where, [statement lines]) for every zoo entry: the unit a focused run damages."""
+    global _FOCUS
+    if _FOCUS is None:
+        from ..gen import zoo
+
+        out = []
+        for text in zoo.SPEC:
+            if text != "enum, bind(c)":
+                out.append(("f2003", "spec", [text]))
+        for text in zoo.SPEC_F08:
+            out.append(("f2008", "spec", [text]))
+        for grp in zoo.SPEC_GROUPS:
+            out.append(("f2003", "spec", list(grp)))
+        for text in zoo.EXEC:
+            out.append(("f2003", "exec", [text]))
+        for text in zoo.EXEC_F08:
+            out.append(("f2008", "exec", [text]))
+        for grp in zoo.EXEC_GROUPS:
+            out.append(("f2003", "exec", list(grp)))
+        for grp in zoo.EXEC_GROUPS_F08:
+            out.append(("f2008", "exec", list(grp)))
+        _FOCUS = out
+    return _FOCUS
+
+
+def _focused_case(run_seed, cfg, case):
+    """Statement number = run index mod #statements; mutation number = run index div
+    #statements, taken from a per-batch-seed shuffle of all (token, op) pairs of that
+    statement, so that a batch enumerates single-token faults evenly over all statements
+    and different VERIF_SEEDs start the enumeration at different places."""
+    src = _focus_sources()
+    idx = cfg.get("index", 0)
+    k = idx % len(src)
+    m = idx // len(src)
+    std, where, lines = src[k]
+    r = rng.derive(cfg.get("batch_seed", 0), "focus-order", k)
+    if rng.derive(run_seed, "focus-std").random() < 0.4:
+        std = "f2008"
+    head = "subroutine zz(u)\n" if where == "spec" else "subroutine zz(u)\nreal :: x\n"
+    body = "\n".join(lines)
+    toks = damage.tokenize(body)
+    sig = [i for i, t in enumerate(toks) if t.strip() and t != "\n"]
+    pairs = [(i, op) for i in sig for op in _FOCUS_OPS]
+    r.shuffle(pairs)
+    muts = []
+    chosen = [pairs[m % len(pairs)]]
+    if m >= len(pairs):
+        # the single faults of this statement are exhausted: second-order faults
+        r2 = rng.derive(run_seed, "focus-second")
+        chosen.append(pairs[r2.randrange(len(pairs))])
+    new = list(toks)
+    for i, op in sorted(chosen, reverse=True):
+        if op == "delete":
+            del new[i]
+        elif op == "duplicate":
+            new.insert(i, new[i])
+        elif op == "swap_next":
+            j = next((x for x in sig if x > i), None)
+            if j is not None and j < len(new):
+                new[i], new[j] = new[j], new[i]
+        else:
+            new[i] = op.split(":", 1)[1]
+        muts.append({"kind": "focus_" + op.split(":")[0], "token": i, "changed": True})
+    text = head + "".join(new) + "\nend subroutine zz\n"
+    case.update({"std": std, "mode": "parse", "reader": "string", "focused": True,
+                 "files": {"main.f90": _l1(text.encode("utf-8"))}, "faults": {},
+                 "mutations": muts, "opts": {"ignore_comments": True}})
+    return case
+
+
 def generate(run_seed, cfg):
     st = rng.Streams(run_seed)
     sw = st("swarm")
+    if cfg.get("index", 0) % 3 == 2:
+        return _focused_case(run_seed, cfg, {"prop": ID})
     std = sw.choice(["f2003", "f2008"])
     opts = {"ignore_comments": sw.random() < 0.5}
     if sw.random() < 0.25:
@@ -331,6 +414,8 @@ def execute(case):
                         violate("C06.a exception-escapes", "%s@%s" % (outcome[1], outcome[2]),
                                 {"message": str(exc)[:200]})
             events.append(["parse", kind, fp.outcome_digest(outcome), clock.count])
+            if case.get("focused"):
+                probe("focused_single_token_fault")
             if logc.decode_skips:
                 probe("decode_handler_fired", logc.decode_skips)
             if stats["faults"].get("eio"):
